@@ -1,4 +1,13 @@
 MODULE = ("Scores", "typhon/retrieval/scores.py", [
     {"name": "mape", "reduction": "nanmean"},
     {"name": "bias", "reduction": "mean"},
+    # pointwise pinball loss; reshaping of the (n,k) estimates / (n,) observations is glue
+    {"name": "quantile_score", "glue": [
+        "taus = np.asarray(taus)",
+        "m = taus.size",
+        "y_tau = y_tau.reshape(-1, m)",
+        "n = y_tau.shape[0]",
+        "try:",
+    ]},
+    {"name": "mean_quantile_score", "reduction": "nanmean"},
 ])
